@@ -17,7 +17,11 @@
 #endif
 #define HDR sizeof(size_t)
 static int b_mallocs, b_frees;
+#ifdef SELFTEST   /* the built-in self test needs a backend that never fails and grants its (small, fixed) sizes */
+static void *b_malloc(UriMemoryManager *m, size_t n){ (void)m; b_mallocs++; if (n > 4096) return 0; return uk_malloc(n); }
+#else
 static void *b_malloc(UriMemoryManager *m, size_t n){ (void)m; b_mallocs++; if (uk_choice(2, "backendFails")) return 0; if (n > HDR + CAP) return 0; return uk_malloc(n); }
+#endif
 static void b_free(UriMemoryManager *m, void *p){ (void)m; b_frees++; uk_free(p); }
 static size_t any_size(const char *name){ return (size_t)uk_sym_long(name); }
 int main(void){
